@@ -260,6 +260,12 @@ namespace AIToolbox {
         return X / (X + Y);
     }
 
+    // Declared here since the overload returning a new vector forwards to it;
+    // the arguments are standard/Eigen types, so argument dependent lookup
+    // would not find a later declaration in this namespace.
+    template <typename TIn, typename TOut, typename G>
+    void sampleDirichletDistribution(const TIn & params, G & generator, TOut && out);
+
     /**
      * @brief This function samples from the input Dirichlet distribution.
      *
